@@ -445,6 +445,9 @@ class BaseFeatureWriter:
             x_value = VariableScalar()
             y_value = VariableScalar()
             found = False
+            # each master's coordinate is rounded to the quantization step, like
+            # the coordinates of a static font (the step is 1 when not an option)
+            step = getattr(self.options, "quantization", 1)
             for source in designspace.sources:
                 if source.layerName is None:
                     layer = source.font
@@ -456,8 +459,8 @@ class BaseFeatureWriter:
                 for anchor in glyph.anchors:
                     if anchor.name == anchorName:
                         location = get_userspace_location(designspace, source.location)
-                        x_value.add_value(location, otRound(anchor.x))
-                        y_value.add_value(location, otRound(anchor.y))
+                        x_value.add_value(location, quantize(anchor.x, step))
+                        y_value.add_value(location, quantize(anchor.y, step))
                         found = True
             if not found:
                 return None
